@@ -24,7 +24,7 @@ LEVEL_NOTE = ("Trusted: Coq kernel, Go harness + Python glue. Modelled, not veri
               "auto-increment plumbing (which value reaches Next), column type bounds (values stay far below 2^31), ALTER TABLE AUTO_INCREMENT (Set/deepSet) "
               "and tracker initialisation from existing roots (tables are created empty in the cases).")
 THEOREMS = ["next_unique", "next_increasing", "explicit_advances", "later_exceeds_earlier", "oracle_accepts_model",
-            "init_is_max_over_branches", "alter_lower_is_noop_or_clamped", "next_increasing_tables", "tables_independent"]
+            "init_is_max_over_branches", "alter_lower_is_noop_or_clamped", "recreate_keeps_max_of_others", "next_increasing_tables", "tables_independent"]
 RULE = ("2-5 sessions on 1-3 branches of one database (some autocommit), 6-30 steps: generated insert / explicit insert (fresh value: ahead of the "
         "sequence or in a gap left by an earlier jump) / COMMIT / ROLLBACK / switch branch; then one goroutine per session doing 2-6 generated inserts "
         "concurrently; non-trivial = generated inserts on at least two branches; distinct by content")
@@ -33,7 +33,7 @@ ASSUMPTIONS = ["server cases: ALTER TABLE .. AUTO_INCREMENT is issued only when 
                "explicit values are fresh (never equal to an id already present on any branch), so no insert fails with a duplicate key",
                "each SequenceTracker.Next call is atomic (per-table mutex)"]
 REQUIRED_TAGS = ["multi-branch", "explicit-ahead", "explicit-gap", "rollback", "switch", "parallel", "autocommit",
-                 "server-case", "restart", "restart-after-rollback", "alter-raise", "alter-lower-noop", "alter-lower-clamped", "two-tables"]
+                 "server-case", "restart", "restart-after-rollback", "alter-raise", "alter-lower-noop", "alter-lower-clamped", "two-tables", "recreate", "recreate-continues", "restart-storm-many-branches"]
 
 K_GEN, K_EXPL, K_COMMIT, K_ROLLBACK, K_SWITCH = range(5)
 
@@ -102,6 +102,11 @@ def gen_server(rng):
             for x in range(ns):
                 steps.append([x, rng.choice([2, 2, 3]), 0, 0])
             steps.append([0, 5, 0, 0])
+        elif r < 0.95:
+            # DROP + CREATE re-seats the sequence as well: every session finishes first
+            for x in range(ns):
+                steps.append([x, rng.choice([2, 2, 3]), 0, 0])
+            steps.append([s, 7, 0, t])
         else:
             # ALTER re-seats the sequence using only what the altering session can see: every session finishes first
             for x in range(ns):
@@ -112,6 +117,9 @@ def gen_server(rng):
 
 
 FIXED_SERVER = [
+    # main generates 1..3; branch b1 drops and re-creates the table: its sequence continues at 4, main then gets 5
+    {"mode": "server", "nbranch": 2, "sess": [0, 1], "autos": [0, 1],
+     "steps": [[0, 0, 0, 0], [0, 0, 0, 0], [0, 0, 0, 0], [1, 7, 0, 0], [1, 0, 0, 0], [0, 0, 0, 0], [1, 0, 0, 0]]},
     # branch b1 holds the larger ids; a rolled-back insert is forgotten by a restart; the tracker restarts at max over branches
     {"mode": "server", "nbranch": 2, "sess": [0, 1], "autos": [0, 1],
      "steps": [[0, 0, 0, 0], [0, 0, 0, 0], [0, 0, 0, 1], [1, 0, 0, 0], [1, 1, 20, 0], [1, 0, 0, 0], [0, 5, 0, 0], [0, 0, 0, 0], [0, 0, 0, 1],
@@ -120,6 +128,19 @@ FIXED_SERVER = [
      "steps": [[0, 0, 0, 0], [0, 2, 0, 0], [1, 0, 0, 0], [1, 1, 9, 0], [1, 3, 0, 0], [1, 0, 0, 0], [1, 2, 0, 0], [0, 5, 0, 0], [0, 0, 0, 0], [1, 0, 0, 0],
                [0, 2, 0, 0], [1, 2, 0, 0], [0, 6, 3, 0], [0, 0, 0, 0], [0, 2, 0, 0]]},
 ]
+
+
+def gen_storm(rng, nb=12, rounds=200):
+    """many branches with different counters for the same table, then repeated server starts: every start must
+    initialise the tracker to the largest of them (the roots are loaded concurrently)"""
+    sess = list(range(nb)) + [rng.randrange(nb)]
+    steps = []
+    order = list(range(nb)); rng.shuffle(order)
+    for rank, b in enumerate(order):
+        steps.append([b, 1, 5 * (rank + 1) + rng.randint(0, 3), 0])
+    for _ in range(rounds):
+        steps += [[0, 5, 0, 0], [nb, 0, 0, 0], [nb, 3, 0, 0]]
+    return {"mode": "server", "nbranch": nb, "sess": sess, "autos": list(range(nb)), "steps": steps, "storm": True}
 
 
 def gen_cases(rng, tier):
@@ -133,12 +154,14 @@ def gen_cases(rng, tier):
     cases += [dict(c) for c in FIXED_SERVER]
     for _ in range(120 if tier == "quick" else 4000):
         cases.append(gen_server(rng))
+    for _ in range(5 if tier == "quick" else 100):
+        cases.append(gen_storm(rng))
     return cases
 
 
 def _sop(st):
     k, x, t = st[1], st[2], st[3]
-    return {0: "SGen %d" % t, 1: "SExpl %d %d" % (t, x), 2: "SCommitT", 3: "SRollbackT", 4: "SSwitch %d" % x, 5: "SRestart", 6: "SAlter %d %d" % (t, x)}[k]
+    return {0: "SGen %d" % t, 1: "SExpl %d %d" % (t, x), 2: "SCommitT", 3: "SRollbackT", 4: "SSwitch %d" % x, 5: "SRestart", 6: "SAlter %d %d" % (t, x), 7: "SRecreate %d" % t}[k]
 
 
 def coq_case_server(case, out):
@@ -177,6 +200,8 @@ def classify_server(case, out):
                 t.add("restart-after-rollback")
         if k == 6:
             t.add("alter")
+        if k == 7:
+            t.add("recreate")
     # classify alters by what the next generated value on that table shows
     steps = case["steps"]
     for i, st in enumerate(steps):
@@ -192,8 +217,18 @@ def classify_server(case, out):
             t.add("alter-lower-clamped")
         else:
             t.add("alter-lower-noop")
+    for i, st in enumerate(steps):
+        if st[1] != 7:
+            continue
+        nxt = next((v for s2, v in zip(steps[i + 1:], o["ids"][i + 1:]) if s2[1] == 0 and s2[3] == st[3]), None)
+        if nxt is not None and nxt > 1:
+            t.add("recreate-continues")      # another branch still had the table: the sequence went on
+        elif nxt == 1:
+            t.add("recreate-restarts")
     if len(tabs) == 2:
         t.add("two-tables")
+    if case.get("storm"):
+        t.add("restart-storm-many-branches")
     return sorted(t)
 
 
@@ -275,8 +310,21 @@ def nontrivial(case, out):
     return "multi-branch" in classify(case, out) or case["nbranch"] == 1
 
 
+_SHRINK_BUDGET = [25]
+
+
 def shrink_candidates(case):
+    for c in _shrink_all(case):
+        if _SHRINK_BUDGET[0] <= 0:
+            return
+        _SHRINK_BUDGET[0] -= 1
+        yield c
+
+
+def _shrink_all(case):
     st = case["steps"]
+    if case.get("storm"):
+        return              # a race: removing statements proves nothing
     for i in range(min(len(st), 30)):
         c = dict(case); c["steps"] = st[:i] + st[i + 1:]
         yield c
